@@ -143,6 +143,19 @@ DIRECTIONS = {
          "faults and close() at every event-loop step, rejected inputs removed from histories and the rest compared, neighbours, "
          "copies, threads, warnings as errors). Say in your notes which pair of steps you separated and why the existing checks "
          "should miss it. No literal trigger constants."),
+    15: ("This round: FEATURE INTERACTIONS AT STRUCTURAL EXTREMES. Read the 'Quantified over' text above and pick a corner of it that is "
+         "legal but structurally extreme or degenerate - the longest and the shortest definitions, messages that fill their last frame "
+         "exactly or leave one byte over, a fast-packet message of one frame, every source address at once, an empty / one-element / "
+         "duplicated / overlapping filter list, a filter that names everything, the same input given thousands of times or two inputs "
+         "alternating, a dump file that already exists / is a directory / is shared, a client whose gateway answers instantly or never, "
+         "a stream that is all one packet repeated, timestamps that are equal, fields that are all 'not available' - and combine it with "
+         "ONE other feature of the library that this property does not name (unit preferences, network map, manufacturer filters, id "
+         "filters, dumping, JSON, the encoder's sequence counter, the client's queue / callbacks / reconnect / seeding of the network "
+         "map). Your pull request (any plausible kind) must break the property only in that combination; each feature alone and the "
+         "extreme alone must keep working. The checker already runs everything the earlier notes describe (hostile neighbour decoders, "
+         "copies, subclasses, threads, warnings as errors, refused inputs right before good ones, losses noticed by reader and by "
+         "sender, long lossy sessions, saturated ports ...). Say in your notes which corner and which second feature you combined and "
+         "why the existing checks should miss it. No literal trigger constants."),
 }
 
 
